@@ -24,20 +24,21 @@ import (
 )
 
 type scenario struct {
-	Source  string   `json:"source"` // rtsp ps cust-annexb3 cust-annexb4 cust-avcc
-	Video   string   `json:"video"`  // avc hevc ""
-	Audio   string   `json:"audio"`  // aac pcma ""
-	Rate    int      `json:"rate"`   // audio clock
-	Seq     []string `json:"seq"`
-	Limit   int      `json:"limit"` // RTP payload limit
-	Aggr    bool     `json:"aggregate"`
-	Perturb string   `json:"perturb"` // "", swapK, dupK
-	Seq0    int      `json:"seq0"`
-	PsSplit bool     `json:"ps_split"`      // a frame in two PES packets
-	PsTcp   bool     `json:"ps_tcp"`         // packets arrive as over TCP: read into one buffer that every packet reuses
-	PsNoPts bool     `json:"ps_no_pts"`     // ... the second one without PTS (continuation)
-	AacAggr int      `json:"aac_aggregate"` // RTSP: up to this many consecutive AAC frames per RTP packet (0 / 1: one each)
-	AacFrag bool     `json:"aac_fragment"`  // RTSP: an AAC frame larger than the payload limit is fragmented
+	Source    string   `json:"source"` // rtsp ps cust-annexb3 cust-annexb4 cust-avcc
+	Video     string   `json:"video"`  // avc hevc ""
+	Audio     string   `json:"audio"`  // aac pcma ""
+	Rate      int      `json:"rate"`   // audio clock
+	Seq       []string `json:"seq"`
+	Limit     int      `json:"limit"` // RTP payload limit
+	Aggr      bool     `json:"aggregate"`
+	Perturb   string   `json:"perturb"` // "", swapK, dupK
+	Seq0      int      `json:"seq0"`
+	PsSplit   bool     `json:"ps_split"`      // a frame in two PES packets
+	CustSplit bool     `json:"cust_split"`    // customize: parameter sets in FeedAvPacket calls of their own, every call through one reused buffer
+	PsTcp     bool     `json:"ps_tcp"`        // packets arrive as over TCP: read into one buffer that every packet reuses
+	PsNoPts   bool     `json:"ps_no_pts"`     // ... the second one without PTS (continuation)
+	AacAggr   int      `json:"aac_aggregate"` // RTSP: up to this many consecutive AAC frames per RTP packet (0 / 1: one each)
+	AacFrag   bool     `json:"aac_fragment"`  // RTSP: an AAC frame larger than the payload limit is fragmented
 }
 
 type frame struct {
@@ -538,6 +539,7 @@ func run(sc scenario) (res []result, compared int, infra error) {
 		if sc.Audio == "aac" {
 			ctx.FeedAudioSpecificConfig(ascFor(sc.Rate))
 		}
+		var custScratch []byte
 		for _, f := range fs {
 			var pkt base.AvPacket
 			pkt.Timestamp, pkt.Pts = f.ms, f.ms
@@ -568,6 +570,59 @@ func run(sc scenario) (res []result, compared int, infra error) {
 					pkt.PayloadType = base.AvPacketPtOpus
 				}
 				pkt.Payload = f.au
+			}
+			if sc.CustSplit && f.video {
+				// each parameter set in a call of its own, the rest of the frame in one more; every call hands over
+				// the same buffer with new content (the API says the buffer is not kept)
+				frame1 := func(nals [][]byte) []byte {
+					var b []byte
+					for _, n := range nals {
+						switch sc.Source {
+						case "cust-avcc":
+							b = append(b, byte(len(n)>>24), byte(len(n)>>16), byte(len(n)>>8), byte(len(n)))
+						case "cust-annexb3":
+							b = append(b, 0, 0, 1)
+						default:
+							b = append(b, 0, 0, 0, 1)
+						}
+						b = append(b, n...)
+					}
+					return b
+				}
+				isPs := func(n []byte) bool {
+					if v == "hevc" {
+						t := n[0] >> 1 & 0x3f
+						return t >= 32 && t <= 34
+					}
+					t := n[0] & 0x1f
+					return t == 7 || t == 8
+				}
+				var calls [][]byte
+				var rest [][]byte
+				for _, n := range f.nals {
+					if isPs(n) && len(rest) == 0 {
+						calls = append(calls, frame1([][]byte{n}))
+					} else {
+						rest = append(rest, n)
+					}
+				}
+				if len(rest) > 0 {
+					calls = append(calls, frame1(rest))
+				}
+				for _, c := range calls {
+					if cap(custScratch) < len(c) {
+						custScratch = make([]byte, len(c), 2*len(c)+64)
+					}
+					buf := custScratch[:len(c)]
+					copy(buf, c)
+					p := pkt
+					p.Payload = buf
+					w.Net.Async(func() { ctx.FeedAvPacket(p) })
+					if err := w.Settle(); err != nil {
+						return nil, 0, err
+					}
+				}
+				continue
 			}
 			p := pkt
 			w.Net.Async(func() { ctx.FeedAvPacket(p) })
@@ -931,6 +986,11 @@ func main() {
 						cases = append(cases, b11)
 					}
 				}
+				if strings.HasPrefix(src, "cust") {
+					b14 := base
+					b14.CustSplit = true
+					cases = append(cases, b14)
+				}
 				if src == "ps" {
 					b13 := base
 					b13.PsTcp = true
@@ -983,7 +1043,7 @@ func main() {
 		r.AddTransitions(int64(len(sc.Seq) + 5))
 		r.AddTraces(1)
 		for _, v := range res {
-			r.Violation(sc.Source+"/"+v.key, fmt.Sprintf("[%s %s+%s@%d seq=%v limit=%d aggr=%v perturb=%s seq0=%d split=%v/%v tcp=%v aac-aggr=%d aac-frag=%v] %s", sc.Source, sc.Video, sc.Audio, sc.Rate, sc.Seq, sc.Limit, sc.Aggr, sc.Perturb, sc.Seq0, sc.PsSplit, sc.PsNoPts, sc.PsTcp, sc.AacAggr, sc.AacFrag, v.what), sc)
+			r.Violation(sc.Source+"/"+v.key, fmt.Sprintf("[%s %s+%s@%d seq=%v limit=%d aggr=%v perturb=%s seq0=%d split=%v/%v tcp=%v cust-split=%v aac-aggr=%d aac-frag=%v] %s", sc.Source, sc.Video, sc.Audio, sc.Rate, sc.Seq, sc.Limit, sc.Aggr, sc.Perturb, sc.Seq0, sc.PsSplit, sc.PsNoPts, sc.PsTcp, sc.CustSplit, sc.AacAggr, sc.AacFrag, v.what), sc)
 		}
 		if compared > 0 {
 			r.Class(fmt.Sprintf("%+v", sc))
